@@ -147,11 +147,19 @@ def check_lag_positions(run, fn, ev, n_sym, base='self', diff=False):
                            'pair reads (%s); expected (x[p - n], x[p])'
                            % ', '.join(S._clean(lia.show(i)) for i in idxs))
                 elif len(idxs) == 1:
-                    # fill on the lagged side: p - n outside the series and the other is x[p]
-                    inside = g + [target, add(sub(len_sym, target), L(-1))]
-                    ok = lia.entails_eq(g, idxs[0], L(P)) and not feasible(inside)
-                    run.ob('SEQ.pos', fn, key, ok, loc(node),
-                           'fill paired with x[%s]' % S._clean(lia.show(idxs[0])))
+                    has_fill = 'fill(' in S.show_elem(el)
+                    if has_fill:
+                        # fill on the lagged side: p - n outside the series, the other is x[p]
+                        inside = g + [target, add(sub(len_sym, target), L(-1))]
+                        ok = lia.entails_eq(g, idxs[0], L(P)) and not feasible(inside)
+                        run.ob('SEQ.pos', fn, key, ok, loc(node),
+                               'fill paired with x[%s]' % S._clean(lia.show(idxs[0])))
+                    else:
+                        # lag 0: both operands are x[p]
+                        ok = lia.entails_eq(g, idxs[0], L(P)) and lia.entails_eq(g, idxs[0], target)
+                        run.ob('SEQ.pos', fn, key, ok, loc(node),
+                               'single read x[%s]; expected x[p] = x[p - n] (lag 0)'
+                               % S._clean(lia.show(idxs[0])))
             # causality for n >= 0
             gn = g + [L(n_sym)]
             if feasible(gn):
